@@ -838,7 +838,7 @@ def task_actions_capped(model: str, tier: str) -> Dict[str, Any]:
     acc = Acc(model)
     cap = CAP[tier]
     for kind in ref.LEAF_KINDS:
-        for r in uni.LEAF_UNIVERSE[kind](("",)):
+        for r in uni.LEAF_UNIVERSE[kind](names=("",)):
             _, spec, view, _ = make_item(r)
             check_actions(acc, r, spec, view, Conv(acc, r, spec, view, quiet=True), cap, capped_pass=True, budget=1024)
     for name, fam, ctor in uni.env_ctors(tier):
